@@ -112,9 +112,10 @@ def _run_map(ctx, spec, rng):
                   detail={"din": din, "dout": dout, "r": r, "cls": cls})
         ctx.sample("O1:apply-choi", {"din": din, "dout": dout, "rank": r, "class": cls, "complex": cplx})
     # Choi -> Kraus on Hermitian-PSD (cp), Hermitian indefinite (hp), non-Hermitian (gen) J
-    # the eigenvalue cut-off of choi_to_kraus is absolute (default 1e-9): for a map of small magnitude it is passed scaled, as a user would have to
-    tol_kw = {"tol": 1e-9 * mag ** 2} if mag < 1 else {}
-    k_lib = ctx.call(choi_to_kraus, j_ref.copy(), dim=[din, dout], **tol_kw)
+    # choi_to_kraus works with absolute thresholds (its eigenvalue cut-off tol = 1e-9, and the 1e-8 of the Hermitian / PSD predicates it
+    # branches on, which cannot be passed through): a map of magnitude 1e-6 is legitimately truncated, so the conversions are probed at magnitude >= 1
+    tol_kw = {}
+    k_lib = ctx.call(choi_to_kraus, j_ref.copy(), dim=[din, dout]) if mag >= 1 else FAILED
     if k_lib is not FAILED:
         if len(k_lib) and isinstance(k_lib[0], (list, tuple)):
             ka, kb = [p[0] for p in k_lib], [p[1] for p in k_lib]
